@@ -192,6 +192,21 @@ def edit_in_place(pbc, rng, shot):
     return k
 
 
+def gen_edge_of_reach(pbc, rng):
+    """a downhill shot whose aim point sits within +-12 % of where the SIGHT LINE meets one of the calculator's limits (altitude floor or
+    maximum drop): just reachable or just out of reach.  -> (config overrides, shot, look-distance in ft)"""
+    import math
+    U = pbc.Unit
+    look = -rng.uniform(15, 50)
+    shot, _ = gen_shot(pbc, rng, flat=True, allow_cant=False, max_look=0.0, table=getattr(pbc, rng.choice(TABLE_NAMES)))
+    shot.look_angle = U.Degree(look)
+    Dc = rng.choice([600.0, 1500.0, rng.uniform(300, 2400)])          # look-distance at which the sight line meets the limit
+    depth = Dc * math.sin(math.radians(-look))
+    alt0 = shot.atmo.altitude >> U.Foot
+    cfg = {'cMinimumAltitude': alt0 - depth} if rng.random() < 0.6 else {'cMaximumDrop': -depth}
+    return cfg, shot, Dc * rng.choice([rng.uniform(0.88, 1.12), rng.uniform(1.0, 1.1), 1.05])
+
+
 def gen_lob(pbc, rng):
     """a low-drag projectile lobbed at 75-88 degrees: subsonic on the way up, supersonic again in thin air on the way down,
     moving backwards in a head wind - the corners flat rifle shots never reach (several sonic crossings, vx <= 0 rows)"""
